@@ -139,7 +139,8 @@ def run_trace(cfg, ops):
                 exc = exc_name(e)
             tags[kind] += 1
             obs = dict(exc=exc, mem=pairs(c), arch=pairs(c.archive), swap=pairs(c.__swap__), archived=bool(c.archived()))
-            recs.append(dict(i=i, op=op, line=line, obs=obs))
+            is_new = (c.archive is a) if (kind in ('open', 'setarch') and exc is None) else None      # the archive handed over IS the one attached now
+            recs.append(dict(i=i, op=op, line=line, obs=obs, is_new=is_new))
             lines.append(line)
         return dict(cfg=cfg, ops=ops, lines=lines, recs=recs, tags=dict(tags), err=None)
     except Exception:
@@ -161,6 +162,8 @@ def monitor(tr):
             pm, pa = dict(map(tuple, prev['mem'])), (None if prev['arch'] is None else dict(map(tuple, prev['arch'])))
             m, a = dict(map(tuple, o['mem'])), (None if o['arch'] is None else dict(map(tuple, o['arch'])))
             def bad(msg): viol.append(dict(prop='C08', i=rec['i'], sig=dict(kind='algebra', op=kind), msg='%s: %s' % (kind, msg)))
+            if kind in ('open', 'setarch') and rec.get('is_new') is False:
+                bad('open(B) / archive = B: the attached archive is not B (the cache kept an archive that compares equal to B; later dumps go there)')
             if kind == 'drop' and (o['archived'] or a is not None or o['swap'] is not None):
                 bad('drop() left an archive attached or parked (a later archived(True) / dump would reach it)')
             if kind == 'off' and (o['archived'] or a is not None):
